@@ -3,9 +3,6 @@ pub fn next_down(&self, limit: &UBig) -> Self
 /*@ requires
         wf_ratio(self.0.numerator.v(), self.0.denominator.v()),          // RBig invariant
         limit.v() != 0,                                                   // `total` reading: limit == 0 panics (division by zero)
-        // EXCLUDED REGION (genuine defect, debug builds only; see the registry fragment): an integer with limit == 1
-        // makes the nudged target 1/1, which violates farey_neighbors' debug assertion `x.denominator() > limit`
-        !(limit.v() == 1 && self.0.denominator.v() == 1),
     ensures
         wf_ratio(ret.0.numerator.v(), ret.0.denominator.v()),
         is_next_down(self.0.numerator.v(), self.0.denominator.v(), limit.v(), ret.0.numerator.v(), ret.0.denominator.v()),
@@ -22,17 +19,17 @@ pub fn next_down(&self, limit: &UBig) -> Self
     let down = if self.denominator() <= limit {
         /*@ proof {
             assert(L * L >= 1) by (nonlinear_arith) requires L >= 1;
-            lemma_wf_unit_frac(L * L);
+            lemma_wf_unit_frac(L * L + 1);
         } @*/
         let target = fract
             - Self(Repr {
                 numerator: IBig::ONE,
-                denominator: limit.sqr(),
+                denominator: limit.sqr() + UBig::ONE,
             });
         /*@ proof {
             let (tn, td) = (target.0.numerator.v(), target.0.denominator.v());
-            lemma_nudge_pre_down(fnum, fd, L, tn, td);
-            lemma_nudge_down_all(fnum, fd, sd, L, tn, td);
+            lemma_nudge_pre_down(fnum, fd, L, L * L + 1, tn, td);
+            lemma_nudge_down_all(fnum, fd, sd, L, L * L + 1, tn, td);
         } @*/
         Self::farey_neighbors(&target, limit).0
     } else {
